@@ -164,6 +164,80 @@ theorem guarded_cmdFree (F : Flags) (x : Act) (hg : Guarded F x) (hb : blockedD 
       rcases (hg.early r hr).1 with e | e <;> rw [e] <;> rfl
   · exact hg.late hb
 
+/-! ### a failed precondition fails the activation -/
+
+/-- phases after the body and its deferred entries -/
+def postPhase : Phase → Bool
+  | .finished | .execDoneP | .released | .done => true
+  | _ => false
+
+/-- phases of a deduplicated-task waiter -/
+def waiterPhase : Phase → Bool
+  | .wWaiting | .wReleased | .wWoken => true
+  | _ => false
+
+/-- the result of an activation whose precondition fails (and that is not a waiter for
+another execution, whose outcome it would inherit) is an error as soon as it is decided -/
+structure FailInv (x : Act) : Prop where
+  waiter : waiterPhase x.phase = true → x.waitsFor ≠ none
+  fails : x.def_.precondOk = false → earlyBlocked x.def_ = false → x.waitsFor = none →
+    (postPhase x.phase = true ∨ x.phase = .early) → x.res.isOk = false
+
+theorem failInv_fresh (P : Program) (F : Flags) (c : Config) (kind : Kind) (t : Nat) :
+    FailInv (freshAct P F c kind t) := by
+  obtain ⟨hph, _, _, _, _, _, _, _, _, _, _, _, hd, _⟩ := freshAct_fields P F c kind t
+  constructor
+  · intro h; rcases hph with e | e <;> rw [e] at h <;> cases h
+  · intro hpre hearly _ hp
+    rw [hd] at hpre hearly
+    cases hP : P[t]? with
+    | none => rw [hP] at hpre; simp at hpre
+    | some d =>
+      rw [hP] at hpre hearly
+      simp only [Option.getD_some] at hpre hearly
+      simp only [earlyBlocked, Bool.or_eq_false_iff, Bool.not_eq_false'] at hearly
+      unfold freshAct earlyResult at hp ⊢
+      rw [hP] at hp ⊢
+      simp only [hearly.1.1, hearly.1.2, hearly.2, Bool.not_true, Bool.false_eq_true, if_false] at hp ⊢
+      by_cases hlim : c.callCount t + 1 ≥ F.maxCalls
+      · simp [hlim, Res.isOk]
+      · simp [hlim, postPhase] at hp
+
+set_option maxHeartbeats 1000000 in
+theorem stepLocal_failInv (F : Flags) (o : Obs) (x : Act) (ev : Ev) (y : Act) (eff : Eff)
+    (hpre : x.def_.precondOk = false) (hc : cmdFree x.phase = true)
+    (hw : waiterPhase x.phase = true → x.waitsFor ≠ none)
+    (hf : x.waitsFor = none → (postPhase x.phase = true ∨ x.phase = .early) → x.res.isOk = false)
+    (h : stepLocal F o x ev = some (y, eff)) :
+    (waiterPhase y.phase = true → y.waitsFor ≠ none) ∧
+    (y.waitsFor = none → (postPhase y.phase = true ∨ y.phase = .early) → y.res.isOk = false) := by
+  steplocal_cases h
+  all_goals (try (simp_all [cmdFree, postPhase, waiterPhase, Act.stop, Res.isOk]; done))
+  all_goals (simp_all [cmdFree, postPhase, waiterPhase, Act.stop, Res.isOk])
+
+theorem waiter_after {p : Phase} (h : afterPhase p) {Q : Prop} : waiterPhase p = true → Q := by
+  intro hy; rcases h with e | e | e <;> rw [e] at hy <;> cases hy
+
+set_option maxHeartbeats 1000000 in
+theorem stepLocal_waiter (F : Flags) (o : Obs) (x : Act) (ev : Ev) (y : Act) (eff : Eff)
+    (hw : waiterPhase x.phase = true → x.waitsFor ≠ none)
+    (h : stepLocal F o x ev = some (y, eff)) : waiterPhase y.phase = true → y.waitsFor ≠ none := by
+  steplocal_cases h
+  all_goals (try (simp_all [waiterPhase, Act.stop]; done))
+  all_goals first
+    | exact waiter_after (next_static _ _ _).2.2.2.2.2.2
+    | exact waiter_after (afterCmd_static _ _ _).2.2.2.2.2
+    | exact waiter_after (.inr (afterDefer_static _).2.2.2.2.2.2)
+
+theorem failInv_local (F : Flags) (o : Obs) (x : Act) (ev : Ev) (y : Act) (eff : Eff)
+    (hg : Guarded F x) (hi : FailInv x) (h : stepLocal F o x ev = some (y, eff)) : FailInv y := by
+  have hst := stepLocal_static F o x ev y eff h
+  refine ⟨stepLocal_waiter F o x ev y eff hi.waiter h, ?_⟩
+  intro hpre hearly
+  rw [hst.def_] at hpre hearly
+  have hlate : lateBlocked F x.def_ = true := by simp [lateBlocked, hpre]
+  exact (stepLocal_failInv F o x ev y eff hpre (hg.late hlate) hi.waiter (hi.fails hpre hearly) h).2
+
 /-! ### monitor ↔ model -/
 
 def noCmdR (F : Flags) (s : Option Bool) (x : Act) : Prop := s = some (blockedD F x.def_) ∧ Guarded F x
